@@ -395,6 +395,9 @@ fn run_plumbed_server(limit: usize, delta: i64, encode_side: bool, sized: bool, 
     o.label("plumbed_generated_server");
     o.nontrivial = true;
     let len = (limit as i64 + delta).max(0) as usize;
+    // every fifth probe configures a limit beyond 4 GiB (2^32 + L): nothing of this size is over it
+    let limit = if limit % 5 == 0 { (1usize << 32) + limit } else { limit };
+    o.label_if(limit > u32::MAX as usize, "plumbed_server_limit_over_4GiB");
     let over = len > limit;
     // the limit of the other direction is set as well, to a clearly different value: each of the four generated
     // handlers must hand each limit to the right side
